@@ -324,6 +324,10 @@ func (w *WAL) mutateStateLocked(tx stateTxn) error {
 		}
 	}
 
+	// The old state holds a reference on its successor until its own readers
+	// are done, see state.next.
+	newS.acquire()
+	s.next.Store(&newS)
 	w.s.Store(&newS)
 	verifSched("state-published")
 	s.finalizer.Store(fn)
